@@ -61,7 +61,13 @@ def main():
         return 0
 
     t0 = time.time()
-    mod = importlib.import_module(modname)  # import errors are harness errors
+    try:
+        mod = importlib.import_module(modname)  # import errors are harness errors
+    except Exception:
+        import traceback
+
+        sys.stderr.write("HARNESS ERROR importing %s:\n%s\n" % (modname, traceback.format_exc()))
+        return 2
     nshards = args.shards or mod.SHARDS.get(tier, 8)
     results = common.run_property(modname, tier, seed, nshards)
     errors = [r[1] for r in results if r[0] != "ok"]
@@ -110,4 +116,13 @@ def main():
 
 
 if __name__ == "__main__":
-    sys.exit(main())
+    try:
+        rc = main()
+    except SystemExit:
+        raise
+    except BaseException:  # anything unexpected in the driver is a harness error, never a violation
+        import traceback
+
+        sys.stderr.write("HARNESS ERROR:\n%s\n" % traceback.format_exc())
+        rc = 2
+    sys.exit(rc)
